@@ -52,8 +52,11 @@ def lookupMsg {α} (t : List (String × List α)) (name : String) : Option (List
 def emitOrder (wfs : List WField) (fs : Fields) : List (WField × PVal) :=
   wfs.flatMap fun wf => (fs.filter (·.1 == wf.name)).map fun p => (wf, p.2)
 
-def flattenOpt (l : List (Option (List UInt8))) : Option (List UInt8) :=
-  l.foldr (fun x acc => match x, acc with | some a, some b => some (a ++ b) | _, _ => none) (some [])
+def optAppend : Option (List UInt8) → Option (List UInt8) → Option (List UInt8)
+  | some a, some b => some (a ++ b)
+  | _, _ => none
+
+def flattenOpt (l : List (Option (List UInt8))) : Option (List UInt8) := l.foldr optAppend (some [])
 
 /-- one occurrence of a field; `d` bounds the message nesting below it -/
 def encField (tbl : List (String × List WField)) : Nat → WField → PVal → Option (List UInt8)
